@@ -259,6 +259,19 @@ def run_task(pid, task, tier, scratch, seed):
                 out["obligations"].append(dict(name=name, ok=False, kind=kind, origin=s["target"], ms=int(r["time"] * 1000)))
                 f = dict(fn=n, obligation=name, engine="kani", message="; ".join(r["failed_checks"][:4]), text=h["cls"], clause=None,
                          rendered="\n".join(r["failed_checks"]), origin=s["target"])
+                known = set()
+                kf = os.path.join(VERIF, "known-findings.txt")
+                if os.path.exists(kf):
+                    for l in open(kf):
+                        m = re.match(r"finding:\s*property=(\S+)\s+obligation=(\S+)", l)
+                        if m and m.group(1) == pid:
+                            known.add(m.group(2))
+                if name in known and not os.environ.get("VERIF_PLAYBACK_KNOWN"):
+                    # a recorded known finding: the witness was replayed when it was recorded; do not spend a playback on every run
+                    f["witness"] = "recorded known finding (set VERIF_PLAYBACK_KNOWN=1 to replay)"
+                    f["replayed"] = False
+                    out["failures"].append(f)
+                    continue
                 pb, err = playback(dst, pkg, n, scratch)
                 if pb:
                     f["witness"] = "kani concrete playback %s" % pb["test"]
